@@ -22,7 +22,9 @@ import time
 import numpy as np
 
 from harness.core import CORPUS_DIR, VERIF, Ctx, HarnessError
-from harness.props.pareto_common import encode_at, encode_matrix
+from harness.props.pareto_common import encode_at, encode_matrix, fixed_findings, repairs_for
+
+FIXED = fixed_findings("C11")
 
 ANCHORS = [
     "accelforge.mapper.FFM._pareto_df.fast_pareto:fast_pareto_mask",
@@ -94,13 +96,32 @@ def neg_bug_active(arr, goals) -> bool:
         return False
     with np.errstate(all="ignore"):
         e = np.take(a, np.array([i for i, _ in eff], dtype=np.intp), axis=1)
-        e = e.astype(np.float32) if e.dtype != np.float32 else e.copy()
+        eff_dt = np.float64 if (K_CAST in FIXED and a.dtype != np.float32) else np.float32
+        e = e.astype(eff_dt) if e.dtype != eff_dt else e.copy()
         good = e.copy()
         for j, (_, g) in enumerate(eff):
             if g == "max":
                 np.negative(e[:, j], out=e[:, j])
                 good[:, j] = -good[:, j]
     return not np.array_equal(e, good)
+
+
+def rank_transform(arr, goals):
+    """order-isomorphic re-encoding: every min/max/diff column by its dense ranks (-inf below, +inf above all
+    finite values), per-prime-factor columns unchanged; float32.  The specification's mask is invariant under it."""
+    a = np.asarray(arr)
+    if a.size == 0:
+        return None
+    b = np.zeros(a.shape, dtype=np.float32)
+    for j, g in enumerate(goals):
+        col = [float(v) for v in a[:, j]]
+        if "prime" in g:
+            b[:, j] = col
+            continue
+        fin = sorted(set(v for v in col if math.isfinite(v)))
+        rank = {v: float(k) for k, v in enumerate(fin)}
+        b[:, j] = [rank[v] if math.isfinite(v) else (-1.0 if v < 0 else float(len(fin))) for v in col]
+    return b
 
 
 def has_negzero(arr) -> bool:
@@ -114,7 +135,8 @@ def lean_request(arr, goals, distinct=True):
     with np.errstate(all="ignore"):
         c32 = np.asarray(arr).astype(np.float32).astype(np.float64)
     cast = encode_at(c32, S) if np.asarray(arr).size else [[] for _ in rows]
-    return {"op": "mask", "scale": S, "goals": list(goals), "data": rows, "cast": cast, "distinct": distinct}
+    return {"op": "mask", "scale": S, "goals": list(goals), "data": rows, "cast": cast, "distinct": distinct,
+            "repairs": repairs_for(np.asarray(arr).dtype, FIXED)}
 
 
 def canon(arr, goals, extra=None):
@@ -421,7 +443,17 @@ class Checker:
             # several hypotheses fail at once on a case that could not be shrunk further
             first = K_CAST if not H["cast"] else (K_SWEEP if not H["sweep"] else K_SUM)
             return first, "several float hypotheses fail on this input (cast/sweep/key = %s/%s/%s)" % (H["cast"], H["sweep"], H["key"])
-        # the model does not reproduce the failure
+        # the model does not reproduce the failure (e.g. the code was partly repaired and orders ties differently):
+        # a failure that disappears under an order-isomorphic re-encoding of every column by small integers is a
+        # float-representation defect; name it after the failing hypothesis
+        if not (H["cast"] and H["sweep"] and H["key"]):
+            b = rank_transform(a, goals)
+            if b is not None:
+                i2, r2, ok2 = self.holds(b, goals)
+                if ok2 and r2["spec"] == spec:
+                    key = K_CAST if not H["cast"] else (K_SWEEP if not H["sweep"] else K_SUM)
+                    return key, ("float-representation defect (the failure disappears when every column is re-encoded by its "
+                                 "dense ranks); failing hypotheses cast/sweep/key = %s/%s/%s" % (H["cast"], H["sweep"], H["key"]))
         if (not rep["key_exact"]) and "general" in br and not dropped and kept_extra:
             return K_SUM, ("general path, float64 accumulation of the row sums is inexact here so LLVM's fastmath association "
                            "decides the order; dominated rows are kept (superset of the front)")
@@ -534,10 +566,10 @@ def exh_range(chk: Checker, r, c, goals, dt, lo, hi, alpha=ALPHA, alpha_enc=ALPH
         idxs = list(range(a0, min(hi, a0 + CH * step), step))
         if step == 1:
             specs = drv.ask("C11", {"op": "exh", "scale": 0, "goals": goals, "alphabet": alpha_enc, "rows": r, "cols": c,
-                                    "from": idxs[0], "count": len(idxs)})
+                                    "from": idxs[0], "count": len(idxs), "repairs": repairs_for(dt, FIXED)})
         else:
             specs = [drv.ask("C11", {"op": "exh", "scale": 0, "goals": goals, "alphabet": alpha_enc, "rows": r, "cols": c,
-                                     "from": i, "count": 1})[0] for i in idxs]
+                                     "from": i, "count": 1, "repairs": repairs_for(dt, FIXED)})[0] for i in idxs]
         for idx, sb in zip(idxs, specs):
             a = exh_matrix(idx, r, c, dt, alpha)
             m = impl.mask(a, goals)
@@ -566,7 +598,7 @@ def _exh_worker(args):
     for a0 in range(lo, hi, CH):
         cnt = min(CH, hi - a0)
         specs = drv.ask("C11", {"op": "exh", "scale": 0, "goals": goals, "alphabet": ALPHA_ENC, "rows": r, "cols": c,
-                                "from": a0, "count": cnt})
+                                "from": a0, "count": cnt, "repairs": repairs_for(dt, FIXED)})
         for t, sb in enumerate(specs):
             a = exh_matrix(a0 + t, r, c, dt)
             m = impl.mask(a, goals)
@@ -574,7 +606,7 @@ def _exh_worker(args):
             out["n"] += 1
             if mb != sb:
                 full = drv.ask("C11", {"op": "exh", "scale": 0, "goals": goals, "alphabet": ALPHA_ENC, "rows": r, "cols": c,
-                                       "from": a0 + t, "count": 1, "full": True})[0]
+                                       "from": a0 + t, "count": 1, "full": True, "repairs": repairs_for(dt, FIXED)})[0]
                 out["fails"].append((a0 + t, mb, full))
     drv.close()
     return out
@@ -729,6 +761,7 @@ def run(ctx: Ctx):
     ctx.cov["exhaustive_cases"] = n_exh
     ctx.cov["exhaustive_wall_s"] = round(time.time() - t0, 1)
     ctx.cov["tolerance"] = "none: masks are compared exactly; values are exact scaled integers"
+    ctx.cov["repairs_modelled"] = sorted(FIXED)
     ctx.cov["stats"] = chk.stats
 
 
